@@ -128,7 +128,7 @@ def main():
         cov['functions_under_contract'] += [f"{uname}:{k}" for k in u.functions]
         for k, v in u.rewrites.items():
             cov['rewrites'][k] = cov['rewrites'].get(k, 0) + v
-        cov['trusted_base'] += [f"{uname}:{t}" for t in sorted(set(res['trusted']))]
+        cov['trusted_base'] += [f"{uname}:{t}" + props.provenance(uname, t) for t in sorted(set(res['trusted']))]
         main_ok_fns, main_fail = set(), []
         for c in res['results']:
             if c['suffix'] == 'canary':
